@@ -57,6 +57,7 @@ FROZEN: set[str] = set()  # classes declared @dataclass(frozen=True): their inst
 TYPE_ALIASES: dict[str, ast.AST] = {}  # `X: TypeAlias = ...` of the module being translated
 DYN: dict[str, list] = {}  # classes of dynamic values (dyn.py): class -> [(field, type, optional)]
 DYN_SINGLETONS: dict[str, str] = {}  # instance name -> its class
+STATIC_NOT_SEQ: set[str] = set()  # plain translated classes (records): no list or generator is an instance of one
 DYN_ANY_NAMES: set[str] = set()  # annotations that denote a dynamic value
 NAMEDTUPLE_DYN: set[str] = set()  # the dynamic classes that are NamedTuples (iterable: their fields)
 
@@ -265,6 +266,10 @@ def static_truth(test, env):
     if isinstance(test, ast.Call) and isinstance(test.func, ast.Name) and test.func.id == "isinstance" and len(test.args) == 2 and not test.keywords \
             and isinstance(test.args[0], ast.Name) and isinstance(test.args[1], ast.Name) and env.get(test.args[0].id) == ("obj", test.args[1].id):
         return True  # the static type is that very class
+    if isinstance(test, ast.Call) and isinstance(test.func, ast.Name) and test.func.id == "isinstance" and len(test.args) == 2 and not test.keywords \
+            and isinstance(test.args[0], ast.Name) and isinstance(test.args[1], ast.Name) and isinstance(env.get(test.args[0].id), tuple) \
+            and env[test.args[0].id][0] in ("seq", "iter") and test.args[1].id in STATIC_NOT_SEQ:
+        return False  # a generator / list of statements is not an instance of that (plain, non-sequence) class
     if isinstance(test, ast.Call) and isinstance(test.func, ast.Name) and test.func.id == "iter" and len(test.args) == 1 and not test.keywords:
         return True  # an iterator object is truthy (the TypeError for a non-iterable argument aside: the argument is one here)
     if isinstance(test, ast.BoolOp):
@@ -347,6 +352,8 @@ class Translator:
             return self.add_dataclass(node)
         info = ClassInfo(node.name)
         info.all_methods = {m_.name for m_ in node.body if isinstance(m_, ast.FunctionDef)}  # also those the unit does not translate
+        if not node.bases:
+            STATIC_NOT_SEQ.add(node.name)
         self.classes[node.name] = info
         only = self.method_selection.get(node.name)
         virtual = self.virtual_methods.get(node.name, [])
@@ -609,6 +616,21 @@ def add_function(tr: Translator, node: ast.FunctionDef):
         body = [FixedParams(fixed, factories).visit(st) for st in body]
         for st in body:
             ast.fix_missing_locations(st)
+    if spec.get("calls"):  # calls redirected to the copy of the callee that takes this choice of argument types
+        for st in body:
+            for x in ast.walk(st):
+                if isinstance(x, ast.Call) and isinstance(x.func, ast.Name) and x.func.id in spec["calls"]:
+                    x.func.id = spec["calls"][x.func.id]
+    if spec.get("raises_call"):
+        # a call that, with this choice of argument types, fails on its first attribute access (e.g. a generator handed to a function
+        # that asks its argument for .namespaces): the statement `f(..)` is `raise E`
+        class _R(ast.NodeTransformer):
+            def visit_Expr(self, n):
+                if isinstance(n.value, ast.Call) and isinstance(n.value.func, ast.Name) and n.value.func.id in spec["raises_call"] \
+                        and all(isinstance(a_, ast.Name) for a_ in n.value.args) and not n.value.keywords:
+                    return ast.copy_location(ast.Raise(exc=ast.Name(id=spec["raises_call"][n.value.func.id], ctx=ast.Load()), cause=None), n)
+                return n
+        body = [ast.fix_missing_locations(_R().visit(st)) for st in body]
     for ln_, lt_ in spec.get("local_types", {}).items():  # `x = None` of a local the source leaves unannotated: its declared type
         hits = [i for i, st in enumerate(body) if isinstance(st, ast.Assign) and len(st.targets) == 1 and isinstance(st.targets[0], ast.Name)
                 and st.targets[0].id == ln_ and isinstance(st.value, ast.Constant) and st.value.value is None]
@@ -1667,6 +1689,9 @@ class Mode:
             # a generator call as a value: (in this model) the list of what it yields; when it ends with an exception, Python
             # raises it wherever the consumer has got to by then: outside the model
             return self.gen_call(e, env)(lambda code, r_, ys_, yt_, env_: code + f"match {r_} with\n| Exn _ => {self.on_exn('OutsideModel')}\n| Val _ =>\n{k(ys_, ('seq', yt_))}\nend")
+        if isinstance(e, ast.GeneratorExp) and len(e.generators) == 1 and not e.generators[0].ifs and not e.generators[0].is_async \
+                and isinstance(e.generators[0].target, ast.Name) and isinstance(e.elt, ast.Name) and e.elt.id == e.generators[0].target.id:
+            return self.expr(e.generators[0].iter, env, k)  # (x for x in it): the items of it
         if isinstance(e, ast.Call):
             return self.call(e, env, k)
         bad(e, "expression")
@@ -2097,6 +2122,16 @@ class Mode:
         # iter(x): an iterable we model as the list of its items is its own iterator
         if isinstance(f, ast.Name) and f.id == "iter" and len(e.args) == 1 and not e.keywords:
             return self.expr(e.args[0], env, lambda v, t: k(v, t) if isinstance(t, tuple) and t[0] == "iter" else bad(e, "iter of this type"))
+        # next(it, None) on a local iterator: the head, or None
+        if isinstance(f, ast.Name) and f.id == "next" and len(e.args) == 2 and not e.keywords and isinstance(e.args[0], ast.Name) \
+                and isinstance(e.args[1], ast.Constant) and e.args[1].value is None \
+                and isinstance(env.get(e.args[0].id), tuple) and env[e.args[0].id][0] == "iter":
+            it = mangle(e.args[0].id)
+            et_ = env[e.args[0].id][1]
+            if isinstance(et_, tuple) and et_[0] == "opt":
+                bad(e, "next(it, None) over items that may be None")
+            h_ = tr.gensym("h")
+            return (f"match {it} with\n| [] =>\n{k('None', ('opt', et_))}\n| {h_} :: {it} =>\n{k(f'(Some {h_})', ('opt', et_))}\nend")
         # next(it) on a local iterator: the head, or StopIteration
         if isinstance(f, ast.Name) and f.id == "next" and len(e.args) == 1 and not e.keywords and isinstance(e.args[0], ast.Name) \
                 and isinstance(env.get(e.args[0].id), tuple) and env[e.args[0].id][0] == "iter":
@@ -2481,9 +2516,20 @@ UNITS = {
                               "graphs_stream_frames": {"param_types": {"data": "GenericStatementSink", "stream": "Stream"}},
                               "split_to_graphs": {"param_types": {"data": "list[Any]"}},
                               "stream_frames": {"singledispatch": True, "param_types": {"data": "GenericStatementSink", "stream": "Stream"}},
+                              # the other alternative of the drivers' `data` union: a generator of statements (a list here)
+                              "triples_stream_frames_gen": {"param_types": {"data": "list[Any]", "stream": "Stream"}},
+                              "quads_stream_frames_gen": {"param_types": {"data": "list[Any]", "stream": "Stream"}, "raises_call": {"namespace_declarations": "AttributeError"}},
+                              "graphs_stream_frames_gen": {"param_types": {"data": "list[Any]", "stream": "Stream"}, "raises_call": {"namespace_declarations": "AttributeError"}},
+                              "stream_frames_gen": {"singledispatch": True, "param_types": {"data": "list[Any]", "stream": "Stream"},
+                                                    "impl_map": {"triples_stream_frames": "triples_stream_frames_gen", "quads_stream_frames": "quads_stream_frames_gen",
+                                                                 "graphs_stream_frames": "graphs_stream_frames_gen"}},
+                              "flat_stream_to_frames": {"param_types": {"statements": "Iterator[Any]", "options": "SerializerOptions | None"},
+                                                        "calls": {"stream_frames": "stream_frames_gen"}},
                               "grouped_stream_to_frames": {"param_types": {"sink_generator": "list[GenericStatementSink]", "options": "SerializerOptions | None"},
                                                            "local_types": {"stream": "Stream | None"}}},
                           "gen": "GenericSerializeGen", "explicit_T": True,
+                          "variants": {"triples_stream_frames_gen": {"of": "triples_stream_frames"}, "quads_stream_frames_gen": {"of": "quads_stream_frames"},
+                                       "graphs_stream_frames_gen": {"of": "graphs_stream_frames"}, "stream_frames_gen": {"of": "stream_frames"}},
                           "items": [
                               {"dyn": "obj", "imported": True, "src": "pyjelly/integrations/generic/generic_sink.py",
                                "classes": ["IRI", "BlankNode", "Literal", "Triple", "Quad", "Prefix"], "singletons": {"DefaultGraph": "_DefaultGraph"}},
@@ -2491,7 +2537,7 @@ UNITS = {
                                "methods": ["encode_spo", "encode_graph"], "inline": ["get_iri_field", "get_literal_field", "get_triple_field"],
                                "recursive": {"method": "encode_spo", "through": ["TermEncoder_encode_quoted_triple"], "fuel": "term"}},
                               "namespace_declarations", "triples_stream_frames", "quads_stream_frames", "split_to_graphs", "graphs_stream_frames",
-                              "guess_options", "guess_stream", "stream_frames", "grouped_stream_to_frames"]},
+                              "guess_options", "guess_stream", "stream_frames", "grouped_stream_to_frames", "flat_stream_to_frames"]},
     # the rdflib integration's term encoder over rdflib's term objects as SPECIFIED here (URIRef, BNode, Literal: str subclasses; what
     # str(x), x.language, x.datatype give; `==`: same class and same string, for a Literal also equal language tags up to case and
     # equal datatypes; rdflib.graph.DATASET_DEFAULT_GRAPH_ID).  The specification is compared with the real rdflib by primcheck.py
@@ -2544,7 +2590,7 @@ class ForeignNames(ast.NodeTransformer):
         return n
 
 
-def singledispatch_body(tr, mod: ast.Module, node: ast.FunctionDef) -> ast.FunctionDef:
+def singledispatch_body(tr, mod: ast.Module, node: ast.FunctionDef, orig: str, impl_map: dict) -> ast.FunctionDef:
     """`@singledispatch def f(x, ..): <default>` with `@f.register(C) def f_C(x, ..)` implementations (classes of one family): f as
     the choice functools.singledispatch makes -- the implementation registered for the nearest class in type(x)'s MRO, i.e. an
     isinstance chain from the most specific registered class to the least, then the default body.  (A generator when the
@@ -2555,9 +2601,9 @@ def singledispatch_body(tr, mod: ast.Module, node: ast.FunctionDef) -> ast.Funct
     for m in mod.body:
         if isinstance(m, ast.FunctionDef):
             for d in m.decorator_list:
-                if isinstance(d, ast.Call) and ast.unparse(d.func) == f"{node.name}.register" and len(d.args) == 1 and isinstance(d.args[0], ast.Name) and not d.keywords:
-                    regs.append((d.args[0].id, m.name))
-                elif ast.unparse(d).startswith(f"{node.name}.register"):
+                if isinstance(d, ast.Call) and ast.unparse(d.func) == f"{orig}.register" and len(d.args) == 1 and isinstance(d.args[0], ast.Name) and not d.keywords:
+                    regs.append((d.args[0].id, impl_map.get(m.name, m.name)))  # (a copy of the dispatcher calls the copies of the implementations)
+                elif ast.unparse(d).startswith(f"{orig}.register"):
                     bad(m, "register form")
     if not regs:
         bad(node, "no registered implementation")
@@ -2870,6 +2916,22 @@ def run_unit(repo: Path, unit: str) -> tuple["Translator", set[str], list[str]]:
                 bad(n, "module-level statement")
         elif item_name(n) in names:
             chosen.append(n)
+    # a function translated a second time under another name, for another choice of its union-typed parameters (the spec of the new
+    # name says which); calls inside the copy may be redirected to other copies
+    for vname, vs in u.get("variants", {}).items():
+        import copy
+        src_fn = next((n for n in mod.body if isinstance(n, ast.FunctionDef) and n.name == vs["of"]), None)
+        if src_fn is None:
+            bad(None, f"{rel} no longer defines {vs['of']}")
+        cp = copy.deepcopy(src_fn)
+        cp.name = vname
+        cp._variant_of = vs["of"]
+        ren = vs.get("calls", {})
+        for x in ast.walk(cp):
+            if isinstance(x, ast.Call) and isinstance(x.func, ast.Name) and x.func.id in ren:
+                x.func.id = ren[x.func.id]
+        chosen.append(cp)
+        names = list(names) + [vname]
     if names is not None:
         missing = set(names) - {item_name(n) for n in chosen}
         if missing:
@@ -2882,9 +2944,14 @@ def run_unit(repo: Path, unit: str) -> tuple["Translator", set[str], list[str]]:
             if isinstance(n, ast.FunctionDef):
                 parts = list(n.body) + [n.args]  # (not the decorators: `@f.register(C)` does not call f)
             got = {x.id for part in parts for x in ast.walk(part) if isinstance(x, ast.Name) and x.id in cn} - {item_name(n)}
+            if isinstance(n, ast.FunctionDef):
+                ren_ = u.get("functions", {}).get(n.name, {}).get("calls", {})
+                got |= {ren_[x.id] for part in parts for x in ast.walk(part) if isinstance(x, ast.Name) and x.id in ren_} & cn
             if isinstance(n, ast.FunctionDef) and u.get("functions", {}).get(n.name, {}).get("singledispatch"):
-                got |= {m.name for m in mod.body if isinstance(m, ast.FunctionDef) and m.name in cn
-                        and any(ast.unparse(d).startswith(f"{n.name}.register") for d in m.decorator_list)}
+                orig_ = getattr(n, "_variant_of", n.name)
+                imap_ = u["functions"][n.name].get("impl_map", {})
+                got |= {imap_.get(m.name, m.name) for m in mod.body if isinstance(m, ast.FunctionDef)
+                        and any(ast.unparse(d).startswith(f"{orig_}.register") for d in m.decorator_list)} & cn
             return got
 
         ordered, rest = [], list(chosen)
@@ -2898,6 +2965,7 @@ def run_unit(repo: Path, unit: str) -> tuple["Translator", set[str], list[str]]:
     raw_items = u["items"] or []
     first_ext = next((i for i, x in enumerate(raw_items) if isinstance(x, dict) and "extend" in x), len(raw_items))
     late = {x if isinstance(x, str) else x[0] for x in raw_items[first_ext:] if isinstance(x, (str, tuple))}  # listed after the extension: use its methods
+    late |= set(u.get("variants", {}))
     chosen = [n for n in chosen if item_name(n) not in late] + [n for n in chosen if item_name(n) in late]
     ext_done = False
 
@@ -2955,7 +3023,7 @@ def run_unit(repo: Path, unit: str) -> tuple["Translator", set[str], list[str]]:
         elif isinstance(n, ast.FunctionDef):
             tr.out.append(f"(* ---- def {n.name} ({rel}) *)")
             if tr.func_specs.get(n.name, {}).get("singledispatch"):
-                n = singledispatch_body(tr, mod, n)
+                n = singledispatch_body(tr, mod, n, getattr(n, "_variant_of", n.name), tr.func_specs[n.name].get("impl_map", {}))
             add_function(tr, n)
         elif isinstance(n, ast.Assign) and isinstance(n.value, ast.Set):
             tr.int_sets[item_name(n)] = list(n.value.elts)
